@@ -408,7 +408,7 @@ def _rest(tier, seed, rnd, routes, vks):
     for width in ((2,) if tier == 'quick' else (2, 3, 4)):
         yield 'h_symkeys', dict(width=width, nk=3)
     wins = [(16, 4, 12), (32, 4, 0), (64, 4, 30), (267, 4, 100)] if tier == 'quick' else \
-        [(w, 6, p) for w in (16, 32, 64, 256, 267, 1023) for p in (0, (w - 6) // 2, w - 6)]
+        [(w, 6, p) for w in (16, 32, 64, 256, 267, 900) for p in (0, (w - 6) // 2, w - 6)]
     for (w, win, pos) in wins:
         for fill in (('zeros', 'diff') if tier == 'quick' else ('zeros', 'ones', 'alt', 'diff')):
             if w >= 1000 and not (pos == w - win and fill in ('zeros', 'ones')):
@@ -427,7 +427,7 @@ INSTANCE_TIMEOUT = {'quick': 200, 'thorough': 1200}
 BOUNDS = {
     'key sets': 'every non-empty key set of widths 1..3 in up to three insertion orders; width 4: 150 seeded sets (quick) / 5 000 seeded sets of the 65 535 (thorough)',
     'values': 'all values of uint8/uint64/int16/coins(9 bit, two length classes)/addr_std/inline cells, symbolic',
-    'symbolic keys': '2 fully symbolic keys for widths 1..4 (thorough 1..6), 3 for width 2 (thorough 2..4); wide keys (16..1023) symbolic in a 4-bit (thorough 6-bit) window, other bits concrete patterns',
+    'symbolic keys': '2 fully symbolic keys for widths 1..4 (thorough 1..6), 3 for width 2 (thorough 2..4); wide keys (16..900; a non-uniform label of about a thousand bits does not fit a cell) symbolic in a 4-bit (thorough 6-bit) window, other bits concrete patterns',
     'key range': 'signed keys over width+2 bits for widths 1..4 (thorough 1..7) through set_int_key, set and a key serializer',
 }
 BOUNDS['incremental use'] = 'one map object serialised, changed (set_int_key, set, removal through the public mapping, value-kind helper) and serialised again: 7 scenarios, values symbolic'
